@@ -1,4 +1,5 @@
 import QuillModel.Rot.Render
+import QuillModel.Rot.Json
 import QuillModel.Drivers.Util
 /-!
 Correspondence driver for the rotation model. Input: the trace printed by `harness/h3_rot.cpp`
@@ -124,7 +125,7 @@ def runTrace (adv : Bool) (minLimit : Nat) (delAllExcess : Bool) : IO UInt32 := 
       -- statement size the sink counts — one size per statement in the model) and fa=<FilenameAppendOption> (the name
       -- carries the wall-clock date): the last two are driven with the property oracle only
       let base := (extras.filterMap (fun w => if w.startsWith "base=" then some (w.drop 5).toString else none)).headD "log.log"
-      let oracleOnly := extras.any (fun w => w.startsWith "sink=" || w.startsWith "fa=" || w.startsWith "oo=")
+      let oracleOnly := extras.any (fun w => w.startsWith "fa=" || w.startsWith "oo=")
       let sk := dst == "dst=1" || oracleOnly
       if sk then skipped := skipped + 1
       let blind := !scanSeesOwn base.toList base.toList
@@ -185,7 +186,8 @@ def runTrace (adv : Bool) (minLimit : Nat) (delAllExcess : Bool) : IO UInt32 := 
           mism := mism + 1
         c := { c with fs := w.fs, sink := some w.sink, ztab := ztab, ops := c.ops + 1, restarts := c.restarts + 1,
                       maxFiles := max c.maxFiles w.sink.created.length }
-      | ["w", id, size, ts, off] =>
+      -- `wire=<n>` (JSON sink): the bytes the base sink wrote for the statement; `size` is what RotatingSink counts
+      | "w" :: id :: size :: ts :: off :: wextra =>
         match c.sink with
         | none => IO.println s!"NO-START line {lineNo}"; problems := problems + 1
         | some s =>
@@ -193,13 +195,15 @@ def runTrace (adv : Bool) (minLimit : Nat) (delAllExcess : Bool) : IO UInt32 := 
           let ztab := if c.ztab.any (·.1 == tsN) then c.ztab else (tsN, int! off) :: c.ztab
           let z := zOf ztab
           let w0 : World := { fs := c.fs, sink := s }
-          let stm : Stmt := { id := Drv.nat! id, size := Drv.nat! size }
+          let counted := Drv.nat! size
+          let wire := (wextra.filterMap (fun x => if x.startsWith "wire=" then some (Drv.nat! (x.drop 5).toString) else none)).headD counted
+          let stm : Stmt := { id := Drv.nat! id, size := wire }
           let timeFired := s.cfg.freq ≠ .disabled && decide (tsN ≥ s.nextRot)
-          let sizeFired := !timeFired && s.cfg.limit ≠ 0 && decide (s.fileSize + stm.size > s.cfg.limit)
-          let wp := prepare P z w0 stm.size tsN
+          let sizeFired := !timeFired && s.cfg.limit ≠ 0 && decide (s.fileSize + counted > s.cfg.limit)
+          let wp := prepare P z w0 counted tsN
           let rotated := (timeFired || sizeFired) && decide (wp.sink.openTs = tsN) && decide (wp.sink.fileSize = 0)
                            && decide (bytes (content c.fs curInfo) ≠ 0)
-          let w := write P z w0 stm tsN
+          let w := writeC P z w0 stm counted tsN
           let st := showState c.base c.sch w.fs w.sink
           let d := diffFields impl st
           total := total + 1
